@@ -61,6 +61,7 @@ type chunkReader struct {
 }
 
 func (r *chunkReader) chunks0() [][]byte { return r.orig }
+
 type readRec struct {
 	Data []byte
 	EOF  bool
